@@ -19,7 +19,7 @@ import (
 func init() { checks["C06"] = runC06 }
 
 type cfStmt struct {
-	kind string // act seq ite ift loop forever brk cont sw
+	kind string // act seq ite ift loop forever brk cont sw ret rng (rng: n = item leaf id, p = which ranged slice)
 	n    int    // act id / cond id
 	p    int    // post act id (0 = none)
 	init int    // init act id for 3-clause loops (0 = none)
@@ -81,6 +81,8 @@ func (g *cfGen) gen2(depth int, inLoop, inSw bool) *cfStmt {
 		return &cfStmt{kind: "ite", n: g.id(), a: g.gen2(depth-1, inLoop, inSw), b: g.gen2(depth-1, inLoop, inSw)}
 	case k < 68:
 		return &cfStmt{kind: "ift", n: g.id(), a: g.gen2(depth-1, inLoop, inSw)}
+	case k < 76:
+		return &cfStmt{kind: "rng", n: g.id(), p: r.Intn(3), a: g.gen2(depth-1, true, false)}
 	case k < 85:
 		s := &cfStmt{kind: "loop", n: g.id(), a: g.gen2(depth-1, true, false)}
 		if r.Bool() {
@@ -149,6 +151,10 @@ func (s *cfStmt) src(sb *strings.Builder) {
 		sb.WriteString("for {\n")
 		s.a.src(sb)
 		sb.WriteString("}\n")
+	case "rng":
+		fmt.Fprintf(sb, "for k%d, v%d := range rs%d {\n", s.n, s.n, s.p)
+		s.a.src(sb)
+		sb.WriteString("}\n")
 	case "brk":
 		sb.WriteString("break\n")
 	case "cont":
@@ -204,6 +210,17 @@ func (s *cfStmt) proto(w *[]string, leaves map[string]bool) {
 		s.a.proto(w, leaves)
 	case "forever":
 		*w = append(*w, "forever", "0")
+		s.a.proto(w, leaves)
+	case "rng": // the hidden iterator slot and the key/value slots are read off the real code (j-th RANGE in code order)
+		j := 0
+		for _, t := range *w {
+			if t == "rng" {
+				j++
+			}
+		}
+		*w = append(*w, "rng", fmt.Sprintf("@r%d", j), fmt.Sprintf("@kv%d", j), fmt.Sprint(s.n))
+		leaves[fmt.Sprintf("a%d", s.n)] = true
+		leaves[fmt.Sprintf("i%d=%d", s.n, s.p)] = false // marks a<n> as the item leaf `rs<p>`
 		s.a.proto(w, leaves)
 	case "brk", "cont":
 		*w = append(*w, s.kind)
@@ -287,6 +304,16 @@ func (m *cfRun) exec(s *cfStmt) string { // "", "brk", "cont"
 				return o
 			}
 		}
+	case "rng": // the ranged slices hold 0, 1 and 3 elements
+		for i := 0; i < []int{0, 1, 3}[s.p]; i++ {
+			o := m.exec(s.a)
+			if o == "brk" {
+				break
+			}
+			if o == "ret" {
+				return o
+			}
+		}
 	case "brk":
 		return "brk"
 	case "cont":
@@ -313,7 +340,7 @@ func (m *cfRun) exec(s *cfStmt) string { // "", "brk", "cont"
 	return ""
 }
 
-const cfPrelude = "var cnt = 0\nvar fuelv = 25\nfunc t(n int) {\n\tprintln(n)\n}\nfunc c(k int) bool {\n\tcnt++\n\treturn (cnt*7+k)%3 != 0\n}\nfunc fuel() bool {\n\tfuelv--\n\treturn fuelv < 0\n}\n"
+const cfPrelude = "var rs0 = []int{}\nvar rs1 = []int{7}\nvar rs2 = []int{4, 5, 6}\nvar cnt = 0\nvar fuelv = 25\nfunc t(n int) {\n\tprintln(n)\n}\nfunc c(k int) bool {\n\tcnt++\n\treturn (cnt*7+k)%3 != 0\n}\nfunc fuel() bool {\n\tfuelv--\n\treturn fuelv < 0\n}\n"
 
 func funcBody(ins []goat.VerifInstr) []goat.VerifInstr {
 	if len(ins) == 0 || ins[0].Code != "FUNC" {
@@ -356,9 +383,38 @@ func (c *Ctx) c06One(s *cfStmt, sample bool) (lines, impl []string) {
 		leaves := map[string]bool{}
 		s.proto(&toks, leaves)
 		var lt []string
+		items := map[string]string{}
+		for k := range leaves {
+			if k[0] == 'i' {
+				kv := strings.SplitN(k[1:], "=", 2)
+				items["a"+kv[0]] = "rs" + kv[1]
+			}
+		}
+		// slots of the j-th range statement, from the real code
+		nr := 0
+		for _, in := range real {
+			if in.Code == "RANGE" {
+				for _, it := range real {
+					if it.Code == "ITER" && it.A == in.A {
+						for ti := range toks {
+							if toks[ti] == fmt.Sprintf("@r%d", nr) {
+								toks[ti] = fmt.Sprint(in.A)
+							} else if toks[ti] == fmt.Sprintf("@kv%d", nr) {
+								toks[ti] = fmt.Sprint(it.B)
+							}
+						}
+					}
+				}
+				nr++
+			}
+		}
 		for _, k := range sortedKeys(leaves) {
 			var leafSrc string
 			switch {
+			case k[0] == 'i':
+				continue
+			case items[k] != "":
+				leafSrc = fmt.Sprintf("func w() []int {\nreturn %s\n}\n", items[k])
 			case k == "c999":
 				leafSrc = "func w() bool {\nreturn fuel()\n}\n"
 			case k[0] == 'c':
@@ -371,7 +427,7 @@ func (c *Ctx) c06One(s *cfStmt, sample bool) (lines, impl []string) {
 				return
 			}
 			lb := funcBody(li)
-			if k[0] == 'c' {
+			if k[0] == 'c' || items[k] != "" {
 				lb = lb[:len(lb)-1] // drop RETURN
 			}
 			var w []string
@@ -410,7 +466,7 @@ func (c *Ctx) c06One(s *cfStmt, sample bool) (lines, impl []string) {
 }
 
 func runC06(c *Ctx) error {
-	c.Rep.Rule = "control skeletons over the forms {simple statement, sequence, if/else, if, for with condition (with and without init/post), for {}, tagless switch with 1..3 clauses and an optional default written at any position, break, continue, return (bare or after a statement)} with a fuel guard at every loop head: all skeletons of depth <= 2 over a reduced alphabet plus random ones to depth 5; for each: the compiled function body (optimizer off and on) compared with the model's assembly, and the printed trace compared with a native interpreter of Go's semantics; plus Go-toolchain runs of generated programs with switch/range/return; distinct = distinct skeleton; non-trivial = contains a loop with break or continue"
+	c.Rep.Rule = "control skeletons over the forms {simple statement, sequence, if/else, if, for with condition (with and without init/post), for {}, for k, v := range over slices of 0, 1 and 3 elements, tagless switch with 1..3 clauses and an optional default written at any position, break, continue, return (bare or after a statement)} with a fuel guard at every loop head: all skeletons of depth <= 2 over a reduced alphabet plus random ones to depth 5; for each: the compiled function body (optimizer off and on) compared with the model's assembly, and the printed trace compared with a native interpreter of Go's semantics; plus Go-toolchain runs of generated programs with switch/range/return; distinct = distinct skeleton; non-trivial = contains a loop with break or continue"
 	n := 300
 	if c.Thorough() {
 		n = 12000
@@ -425,6 +481,9 @@ func runC06(c *Ctx) error {
 		g.src(&sb)
 		body := sb.String()
 		c.Rep.Seen(body, strings.Contains(body, "for") && (strings.Count(body, "break") > strings.Count(body, "for") || strings.Contains(body, "continue")))
+		if strings.Contains(body, "range") {
+			c.Rep.Count("skeleton-with-range")
+		}
 		if strings.Contains(body, "switch {") {
 			c.Rep.Count("skeleton-with-switch")
 			if strings.Contains(body, "for") && strings.Contains(body, "continue") {
@@ -445,7 +504,7 @@ func runC06(c *Ctx) error {
 	}
 	for i := 0; i < 7; i++ {
 		for j := 0; j < 7; j++ {
-			for form := 0; form < 3; form++ {
+			for form := 0; form < 4; form++ {
 				g := &cfGen{}
 				body := &cfStmt{kind: "seq", a: atoms(g)[i], b: atoms(g)[j]}
 				var s *cfStmt
@@ -454,8 +513,10 @@ func runC06(c *Ctx) error {
 					s = &cfStmt{kind: "loop", n: g.id(), a: body}
 				case 1:
 					s = &cfStmt{kind: "loop", n: g.id(), a: body, init: g.id(), p: g.id()}
-				default:
+				case 2:
 					s = &cfStmt{kind: "forever", a: body}
+				default:
+					s = &cfStmt{kind: "rng", n: g.id(), p: 2, a: body}
 				}
 				// nested inside another loop followed by an action, to check that break/continue stop at the inner loop
 				outer := &cfStmt{kind: "loop", n: g.id(), a: &cfStmt{kind: "seq", a: s, b: &cfStmt{kind: "act", n: g.id()}}, init: g.id(), p: g.id()}
